@@ -68,6 +68,13 @@ def build_battery(mm, py, heavy=True):
         (T.DocumentSymbol, {"name": "\ufeffname", "kind": 5, "range": rng_, "selectionRange": rng_}),
         (T.FileSystemWatcher, {"globPattern": "**/*.py", "kind": 7}),
         (T.SignatureHelp, {"signatures": [{"label": "f()"}], "activeSignature": 0, "activeParameter": None}),
+        # arrays with ONE invalid element among valid ones (error handling must not depend on the configuration)
+        (T.CompletionResponse, {"jsonrpc": "2.0", "id": 1, "result": [{"label": "ok"}, {"label": "bad", "insertTextFormat": 0}, {"label": "ok2"}]}),
+        (T.CompletionResponse, {"jsonrpc": "2.0", "id": 1, "result": {"isIncomplete": False, "items": [{"label": "ok"}, {"kind": 3}]}}),
+        (T.DocumentSymbolResponse, {"jsonrpc": "2.0", "id": 1, "result": [{"name": "a", "kind": 5, "range": rng_, "selectionRange": rng_}, {"name": "b", "kind": 987, "range": rng_, "selectionRange": rng_}]}),
+        (T.PublishDiagnosticsParams, {"uri": "file:///a", "diagnostics": [{"range": rng_, "message": "m"}, {"range": rng_, "message": "m", "severity": 9}]}),
+        (T.WorkspaceEdit, {"documentChanges": [{"kind": "create", "uri": "file:///a"}, {"kind": "move", "uri": "file:///b"}]}),
+        (T.SignatureHelp, {"signatures": [{"label": "f(a)", "parameters": [{"label": [0, 1]}, {"label": [7]}]}]}),
         # undeclared keys (forward compatibility; a forbid_extra_keys converter must say no)
         (T.Position, {"line": 1, "character": 2, "zzUnknown9": True}),
         (T.Location, {"uri": "file:///a", "range": dict(rng_, zzUnknown9=1)}),
